@@ -2,6 +2,7 @@ import GA.Drv.Iterq
 import GA.Drv.LayoutE
 import GA.Drv.OwnE
 import GA.Drv.SeqE
+import GA.Drv.MemE
 open GA.Drv
 
 def answerLine (line : String) : String :=
@@ -13,6 +14,9 @@ def answerLine (line : String) : String :=
       | "layout" => LayoutE.answer kv
       | "own" => OwnE.answer kv
       | "seq" => SeqE.answer kv
+      | "views" => MemE.views kv
+      | "chunks" => MemE.chunks kv
+      | "regroup" => MemE.regroup kv
       | _ => "bad-engine"
     s!"{seq} {body}"
   | _ => "bad-line"
